@@ -140,6 +140,7 @@ pub fn run(ctx: &mut Ctx) -> (&'static str, String, bool) {
     let bases = ctx.tier.pick(2u64, 6u64);
     let base_rng = ctx.rng.fork(1);
     let c = &c;
+    ctx.extra("mixed_text_pool", json!(c.mixed_pool.iter().collect::<String>()));
     let parts: Vec<Part> = c
         .kinds()
         .par_iter()
